@@ -11,6 +11,7 @@ import (
 	"github.com/free5gc/chf/cdr/cdrType"
 	chf_context "github.com/free5gc/chf/internal/context"
 	"github.com/free5gc/chf/internal/logger"
+	"github.com/free5gc/chf/internal/verifhook"
 	"github.com/free5gc/openapi/models"
 )
 
@@ -67,6 +68,7 @@ func (p *Processor) OpenCDR(
 		Value: int64(self.LocalRecordSequenceNumber),
 	}
 	self.Unlock()
+	verifhook.At("opencdr.seq", "seq", chfCdr.LocalRecordSequenceNumber.Value)
 	// Skip Record Extensions: operator/manufacturer specific extensions
 
 	supiType := strings.Split(ue.Supi, "-")[0]
